@@ -334,9 +334,18 @@ class Interp:
         d = self.d
         body = self.block(node.body, st)
         res = []
+        else_on_exit = getattr(node, '_dt_else_on_exit', False)
         for o in body:
             if o.kind == NORMAL:
                 res += self.block(node.orelse, o.state)
+            elif else_on_exit and o.kind in (RETURN, BREAK, CONT):
+                # normalise.N1b: clean-up of a contextmanager generator
+                # runs on every non-raising exit of the with body
+                for eo in self.block(node.orelse, o.state):
+                    if eo.kind == NORMAL:
+                        res.append(Outcome(o.kind, eo.state, o.exc, o.node))
+                    else:
+                        res.append(eo)
             elif o.kind == RAISE and node.handlers:
                 pending = True
                 for h in node.handlers:
